@@ -146,6 +146,14 @@ Proof. vm_compute. reflexivity. Qed.
 Theorem cpt_pattern_guard : str_eqb cpt_pattern_text (s2l "(%s)([#_\w'?]+)?") = true.
 Proof. vm_compute. reflexivity. Qed.
 
+(* the writer's literal separators, translated from Cpt._netmake1 / Opts.format / _make_anon_cpt_name, are the ones
+   the model (and every theorem above) uses: fields joined by one blank, "; " before the options, ", " between
+   options, key=value, <type>anon<n> *)
+Theorem printer_constants_guard :
+  str_eqb field_sep_text [SP] && str_eqb opts_sep_text (s2l "; ") && str_eqb item_sep_text (s2l ", ")
+  && str_eqb item_fmt_text (s2l "%s=%s") && str_eqb anon_suffix_text (s2l "anon") = true.
+Proof. vm_compute. reflexivity. Qed.
+
 Print Assumptions rules_wf.
 Print Assumptions types_wf.
 Print Assumptions parse_print_G.
